@@ -56,6 +56,7 @@ type Unit struct {
 	headCounter map[int]int
 	loopOrdOf   map[ast.Node]int
 	nLoops      int
+	notes       []string // harmless contract/code mismatches (reported with -v)
 	loopPre     map[int]*State
 	sawPoolGet  bool
 	poolCase    string
